@@ -54,6 +54,7 @@ package lua
 //@ ensures  forall k int :: old(rg.top) <= k && k < topi ==> rg.array[k] == LNil
 //@ ensures  arrSameOrFresh(rg)
 //@ ensures  cap(rg.array) >= old(cap(rg.array))
+//@ ensures  topi <= old(cap(rg.array)) ==> arrid(rg.array) == old(arrid(rg.array))
 //@ modifies rg.array, rg.top, rg.array[*]
 //@ loop 1 invariant oldtopi <= i && Inv_reg(rg) && rg.top == topi && oldtopi == old(rg.top)
 //@ loop 1 invariant forall k int :: 0 <= k && k < old(rg.top) && k < topi ==> rg.array[k] == old(rg.array[k])
@@ -339,6 +340,7 @@ package lua
 //@ ensures  forall k int :: 0 <= k && k < top(ls) && k < old(top(ls)) ==> ls.reg.array[k] == old(ls.reg.array[k])
 //@ ensures  forall k int :: old(top(ls)) <= k && k < top(ls) ==> ls.reg.array[k] == LNil
 //@ ensures  arrSameOrFresh(ls.reg) && cap(ls.reg.array) >= old(cap(ls.reg.array))
+//@ ensures  top(ls) <= old(cap(ls.reg.array)) ==> arrid(ls.reg.array) == old(arrid(ls.reg.array))
 //@ modifies ls.reg.array, ls.reg.top, ls.reg.array[*]
 
 //@ define i2r(ls *LState, idx int) int = ite(idx > 0, base(ls)+idx-1, ite(idx == 0, -1, ite(top(ls)+idx < base(ls), -1, top(ls)+idx)))
